@@ -172,8 +172,10 @@ func (t *twin) cmpMsg(kind, what string, rx, ry *vnet.Result, extra map[string]s
 			names = append(names, c)
 		}
 		sort.Strings(names)
-		what = strings.Join(names, "+")
-		t.violate("same-message-different-effect", what, fmt.Sprintf("%s: original wrote %s, re-imported wrote %s", kind, cut(diffSet(rx)), cut(diffSet(ry))), extra)
+		detail := fmt.Sprintf("%s: original wrote %s, re-imported wrote %s", kind, cut(diffSet(rx)), cut(diffSet(ry)))
+		for _, what := range names { // one report per state class in which the effects differ
+			t.violate("same-message-different-effect", what, detail, extra)
+		}
 		return false
 	}
 	return true
@@ -344,6 +346,7 @@ func TestC16(t *testing.T) {
 		w := world.New(fmt.Sprintf("gen%d", i), net, rng)
 		cfg := world.DefaultPktCfg()
 		cfg.Steps, cfg.PAdv, cfg.PClean, cfg.PRelay = 140, 0.06, 0.14, 0.42
+		cfg.NoFieldEdits = true // port / relay-chain edits are C13's recorded findings; their after-effects would only cascade here
 		sim := world.NewPktSim(w, cfg, rng)
 		return w, func() {
 			// history, with client updates steered onto the '/'-heights 47 and 303 of the counterparties
